@@ -192,12 +192,13 @@ group `c₀ … c_k`
   the second compared level on `_get_subtree_shift` under-estimates the need for `left_idx > 0`,
   because it accumulates the shift already divided by `1 - left_idx/right_idx`).
 
-Both separations must be positive; no order between them is needed (the bound is their minimum). -/
+Both separations must be non-negative (positive for the strict order); no order between them is needed
+(the bound is their minimum). -/
 
 /-- **cousins (partial)**: on a tree of the class, any two nodes of one depth are at least
     `min sibling_separation subtree_separation` apart, in their left-to-right tree order — for every
-    entry state and every positive pair of separations. -/
-theorem rt_cousins_partial (P : Params) (t : ST) (hsib : 0 < P.sib) (hsub : 0 < P.sub) (h : t.ChainExact) :
+    entry state and every pair of non-negative separations (the harness only generates positive ones). -/
+theorem rt_cousins_partial (P : Params) (t : ST) (hsib : 0 ≤ P.sib) (hsub : 0 ≤ P.sub) (h : t.ChainExact) :
     ∀ d : Nat, ((layoutS P t).level d).Pairwise (fun a b => a.x + min P.sib P.sub ≤ b.x) := by
   intro d
   have hm : 0 ≤ min P.sib P.sub := by grind
@@ -206,7 +207,7 @@ theorem rt_cousins_partial (P : Params) (t : ST) (hsib : 0 < P.sib) (hsub : 0 < 
   exact passes_level_sorted P hm h1 h2 t.clear (by rw [clear_sk]; exact h) (clear_mono t) d
 
 /-- the same for a fresh `Tree` (the form of `RT_full`, restricted to the class) -/
-theorem rt_cousins_partial_fresh (P : Params) (t : Tree) (hsib : 0 < P.sib) (hsub : 0 < P.sub)
+theorem rt_cousins_partial_fresh (P : Params) (t : Tree) (hsib : 0 ≤ P.sib) (hsub : 0 ≤ P.sub)
     (h : ChainExact t) :
     ∀ d : Nat, ((layout P t).level d).Pairwise (fun a b => a.x + min P.sib P.sub ≤ b.x) :=
   rt_cousins_partial P (ST.ofTree t) hsib hsub h
@@ -216,7 +217,7 @@ theorem rt_cousins_partial_fresh (P : Params) (t : Tree) (hsib : 0 < P.sib) (hsu
 theorem rt_order_partial (P : Params) (t : ST) (hsib : 0 < P.sib) (hsub : 0 < P.sub) (h : t.ChainExact) :
     ∀ d : Nat, ((layoutS P t).level d).Pairwise (fun a b => a.x < b.x) := by
   intro d
-  refine (rt_cousins_partial P t hsib hsub h d).imp ?_
+  refine (rt_cousins_partial P t (Rat.le_of_lt hsib) (Rat.le_of_lt hsub) h d).imp ?_
   intro a b hab
   grind
 
@@ -269,7 +270,7 @@ example : ((layout unitP chainTree).level 5).map FT.x = [0, 1/2, 3/2, 5/2, 7/2] 
 
 /-- **at most three levels**: every tree with at most three levels is in the class, so the cousin
     clause holds for it. -/
-theorem rt_cousins_depth3 (P : Params) (t : ST) (hsib : 0 < P.sib) (hsub : 0 < P.sub)
+theorem rt_cousins_depth3 (P : Params) (t : ST) (hsib : 0 ≤ P.sib) (hsub : 0 ≤ P.sub)
     (h3 : t.sk.height ≤ 3) :
     ∀ d : Nat, ((layoutS P t).level d).Pairwise (fun a b => a.x + min P.sib P.sub ≤ b.x) :=
   rt_cousins_partial P t hsib hsub (Sk.exact_of_height_le t.sk h3)
@@ -280,7 +281,7 @@ example : ((layout oddP (nd [nd [lf, lf], lf, nd [lf, lf, lf], nd [lf]])).level 
     = [5/2, 3, 25/4, 27/4, 29/4, 35/4] := by decide +kernel
 
 /-- **complete binary trees** of every height are in the class. -/
-theorem rt_cousins_complete_binary (P : Params) (n : Nat) (hsib : 0 < P.sib) (hsub : 0 < P.sub) :
+theorem rt_cousins_complete_binary (P : Params) (n : Nat) (hsib : 0 ≤ P.sib) (hsub : 0 ≤ P.sub) :
     ∀ d : Nat, ((layoutS P (Sk.toST (Sk.full 2 n))).level d).Pairwise
       (fun a b => a.x + min P.sib P.sub ≤ b.x) :=
   rt_cousins_partial P _ hsib hsub (by unfold ST.ChainExact; rw [toST_sk']; exact Sk.full2_exact n)
